@@ -123,7 +123,26 @@ namespace {
         // is not used - and while nothing may complete they starve the tasks that still have to post,
         // see C01's known finding)
         bool const hold_allowed = many;
-        if (!ctx.program_from_replay)
+        // one run in 25 is a flood: a single task on a single worker (nobody polls meanwhile) starts more than a
+        // thousand sends in a row, more than the request queue between submitters and pollers holds without growing
+        int const flood = (int) ctx.params.set("c20.flood", !many && r.chance(1, 25) ? r.range(1050, 1300) : 0);
+        if (flood)
+        {
+            ctx.params.set("rt.workers", 1);
+            pool = ctx.params.set("c20.mpi_pool", 0);
+            nbatches = (int) ctx.params.set("c20.batches", 1);
+            if (mode < 16) mode = ctx.params.set("c20.completion_mode", 16 + (mode & 7) + (r.chance(1, 2) ? 8 : 0));
+            Program p;
+            for (int i = 0; i < flood; i++)
+            {
+                Op op;
+                op.v[0] = 1;
+                op.v[1] = 1 + (i & 7);
+                p.push_back(op);
+            }
+            ctx.program = p;
+        }
+        else if (!ctx.program_from_replay)
         {
             Program p;
             int n = many ? (int) r.range(12, ctx.thorough ? 64 : 40) : (int) r.range(1, ctx.thorough ? 24 : 12);
@@ -212,7 +231,14 @@ namespace {
                 // in the blocking completion modes (yield_while 0-7, suspend_resume 8-15) starting an operation
                 // waits for its request: the posting task does not get to the second request of its pair
                 to_post += (M[(size_t) i]->kind == 1 || mode < 16) ? 1 : 2;
-                ex::execute(ex::thread_pool_scheduler{}, [i] { post(i); });
+                if (!flood) ex::execute(ex::thread_pool_scheduler{}, [i] { post(i); });
+            }
+            if (flood)
+            {
+                ex::execute(ex::thread_pool_scheduler{}, [n] {
+                    for (int i = 0; i < n; i++) post(i);
+                });
+                probe("flood_of_requests_from_one_task");
             }
             if (hold)
             {
